@@ -427,6 +427,7 @@ def main(run):
             if int(round(np.linalg.det(m))) != 0:
                 break
         snf_mats.append(m)
+    snf_mats.append(np.array([[-6, -4, -8], [0, 4, -8], [-4, 4, -1]]))  # corpus: D = diag(2,1,212), no divisibility chain
     for m in snf_mats:
         s = SNF3x3(m)
         quiet(s.run)
